@@ -77,7 +77,16 @@ func buildStream(c *core.Ctx, maxItems int) ([]byte, []sent) {
 	n := c.Int("items", 1, maxItems)
 	for i := 0; i < n; i++ {
 		it := sent{off: len(out), shortest: true}
-		switch c.Pick("item.kind", 8) {
+		switch c.Pick("item.kind", 9) {
+		case 8:
+			// a tag head (major type 6) with a registered tag number, in any head width; the
+			// item it wraps is simply the next item of the stream. No typed call may succeed here.
+			it.major = 6
+			it.val = c.PickU64("tag.number", 0, 1, 2, 3, 21, 24, 32, 55799, 55799, 55800, 1<<32+55799, 15309736)
+			w, sh := widthFor(c, "tag", it.val)
+			it.shortest = sh
+			out = refcbor.AppendHeadSized(out, 6, it.val, w)
+			c.Probe("tag head followed by an item")
 		case 0, 1:
 			it.major, it.val = 0, drawValue(c, "uint")
 			w, sh := widthFor(c, "uint", it.val)
@@ -330,8 +339,14 @@ func consume(c *core.Ctx, stream []byte, plan core.ReaderPlan, maxCalls int) {
 	}()
 	for i := 0; i < maxCalls; i++ {
 		pos := sr.Consumed()
-		major, _, _, _, _ := refcbor.Head(eff, pos)
+		major, _, _, hl, herr := refcbor.Head(eff, pos)
 		k := matching(major)
+		if major == 6 && herr == nil {
+			// at a tag: ask for the type of the item the tag wraps (still a wrong-type call)
+			if m2, _, _, _, e2 := refcbor.Head(eff, pos+hl); e2 == nil {
+				k = matching(m2)
+			}
+		}
 		if c.Chance("call.other", 1, 6) {
 			k = callKind(c.Pick("call.kind", int(nCalls)))
 		}
